@@ -1,8 +1,8 @@
 """C09 — the cluster update is weight-preserving and reversible."""
-from checks import pure_fns, law_audits
+from checks import pure_fns, law_audits, full_step
 from checks import extra_audits
-LEAN_TARGETS = ["QmcProofs.RefinementClusterExact", "QmcProps.C09", "drv_c09"]
-BINS = ["c09"]
+LEAN_TARGETS = ["QmcProofs.RefinementClusterExact", "QmcProps.C09", "drv_c09", "drv_step"]
+BINS = ["c09", "fullstep"]
 
 THEOREMS = [
     "isClusterMove_sound",
@@ -114,4 +114,5 @@ def main(ck):
         cases = ck.harness("c09", ["equilibrium"])
         ck.correspond("equilibrium-strings", "drv_c09", cases)
     law_audits.run(ck, groups=['refine', 'ideal', 'step', 'example'])   # idealised law of the executable model = the Markov kernel of the invariance theorems
+    full_step.run(ck, modes=["ising"])   # whole real time steps (cluster updates with and without field), dev and release semantics
     return ck.finish(RULE)
